@@ -249,3 +249,43 @@ def run_recv_script(stream, script, segs=None, ending="eof", ws_kwargs=None, tim
             break
     return {"trace": trace, "timeouts": timeouts, "post_timeout_bad": post_timeout_bad, "conn": conn, "ws": w,
             "sock": so, "peer": peer, "resp_len": resp_len}
+
+
+# ---------------------------------------------------------------------------
+# simulated network helpers
+
+
+def make_net(on_conn=None, hosts=None):
+    """SimNetwork where every address accepts and runs a HandshakePeer
+    (or on_conn(conn) when given)."""
+    n = net.SimNetwork()
+
+    def accept(conn):
+        if on_conn is not None:
+            on_conn(conn)
+        else:
+            HandshakePeer(conn)
+
+    n.default_outcome = ("accept", accept)
+    n.default_ips = ["192.0.2.1"]
+    for h, ips in (hosts or {}).items():
+        n.add_host(h, ips)
+    shim.set_network(n)
+    return n
+
+
+def reset_process_state():
+    """Process-wide library state that must not leak between cases."""
+    W = ws()
+    W._handshake.CookieJar.jar.clear()
+    W.setdefaulttimeout(None)
+    W.enableTrace(False)
+    W.setReconnect(0)
+
+
+PROXY_ENV = ["http_proxy", "https_proxy", "HTTP_PROXY", "HTTPS_PROXY", "no_proxy", "NO_PROXY", "WEBSOCKET_CLIENT_CA_BUNDLE", "SSLKEYLOGFILE"]
+
+
+def scrub_env():
+    for k in PROXY_ENV:
+        os.environ.pop(k, None)
